@@ -36,6 +36,7 @@ type UnionTable struct {
 
 type Program struct {
 	Name   string
+	NoJSON bool // the JSON round trip is out of reach for this program (see prep)
 	Funcs  []Func
 	Enums  []EnumTable
 	Unions []UnionTable
@@ -462,7 +463,7 @@ func Child(p *Program, seed0 int64, k int, only string) {
 			}
 			// JSON round trip (skipped for bare interface results: the wire
 			// format of a union is defined for union-typed components)
-			if holder.Kind() != reflect.Interface && !anonUnionContainer(tb, holder.Type()) {
+			if !p.NoJSON && holder.Kind() != reflect.Interface && !anonUnionContainer(tb, holder.Type()) {
 				b, err := safeMarshal(holder.Interface())
 				if err != nil {
 					report("json_round_trip", "marshal: "+err.Error())
